@@ -135,6 +135,8 @@ def check_trace(res, tr, tr2):
                     res.violate("failure/client-error-without-close", "failed with ClientError before close()",
                                 rid=rid, t=t, close=tr.close_called)
                 res.hit("failed_by_close")
+            elif rid in sc.get("unwritable", ()):
+                res.hit("unwritable_requests_failed")  # whatever the transport raised for it
             else:
                 res.violate("failure/unexpected-%s" % val, "request failed with something other than cancellation "
                             "or owner-closed", rid=rid)
